@@ -223,6 +223,24 @@ func c15Run(c *fw.Ctx, b fw.Batch) {
 				c15CheckIs(c, nd.m, nd.own, u, c15Norm(u))
 				c15CheckIs(c, nd.m, nd.own, c15Decorate(r, u), c15Norm(u))
 			}
+			// the format's own names with ONE letter replaced by a Unicode look-alike that folds to it
+			// (U+017F long s, U+0131 dotless i): not the same name. U+212A Kelvin sign is left out: strings.ToLower maps it to k, so mime.ParseMediaType itself treats it as a case variant
+			for a := range nd.own {
+				for _, cf := range [][2]string{{"s", "\u017f"}, {"i", "\u0131"}, {"S", "\u017f"}} {
+					if i := strings.Index(a, cf[0]); i >= 0 {
+						v := a[:i] + cf[1] + a[i+1:]
+						c15CheckIs(c, nd.m, nd.own, v, c15Norm(v))
+						c15CheckIs(c, nd.m, nd.own, strings.ToUpper(a[:i])+cf[1]+strings.ToUpper(a[i+1:]), c15Norm(v))
+					}
+				}
+				// and with very long runs of white space around it (still the same name)
+				if r.Intn(8) == 0 {
+					pad := strings.Repeat(" ", []int{4095, 4096, 5000, 70000}[r.Intn(4)])
+					c15CheckIs(c, nd.m, nd.own, pad+a, a)
+					c15CheckIs(c, nd.m, nd.own, a+pad+"; charset=utf-8", a)
+					c15CheckIs(c, nd.m, nd.own, pad+strings.ToUpper(a)+pad, a)
+				}
+			}
 		}
 	case "equalsany":
 		lo, hi := split(len(all), b.Idx, b.Of)
@@ -390,7 +408,7 @@ func init() {
 	fw.Register(&fw.Prop{
 		ID:    "C15",
 		Level: "exploration",
-		Rule: "exhaustive (format x registered name/alias) matrix undecorated, plus k random decorations per pair: upper / random letter case, surrounding space / TAB / CR / LF / FF / VT and Unicode white space U+0085 U+00A0 U+2003 U+3000 U+2028 (also between the subtype and ';'), 0-4 well-formed distinct parameters (tokens, quoted strings containing ; , = \\\" \\\\, RFC 2231 charset/language and continuation forms), a trailing ';'; unregistered look-alike names incl. media ranges (image/*, */*, text/*; q=0.8) and truncated names; EqualsAny over decorated pairs of registered names with decoys; every registered name and alias through Lookup(a).Is(a), including names and aliases registered at run time through Extend (half of them looked up, and not found, before their registration); detection results from seeds, every string / byte literal of the tree's source (alone and zero-padded), hostile charset labels (incl. labels that contain '; charset=…'), generated HTML and text: d.Is(d.String()), EqualsAny(d.String(), d.String()), Lookup(bare type).Is(d.String()), and every ancestor of the result answers to all names and aliases of its format. " +
+		Rule: "exhaustive (format x registered name/alias) matrix undecorated, plus k random decorations per pair: upper / random letter case, surrounding space / TAB / CR / LF / FF / VT and Unicode white space U+0085 U+00A0 U+2003 U+3000 U+2028 (also between the subtype and ';'), 0-4 well-formed distinct parameters (tokens, quoted strings containing ; , = \\\" \\\\, RFC 2231 charset/language and continuation forms), a trailing ';'; unregistered look-alike names incl. a letter replaced by a Unicode character that case-folds to it (U+017F, U+0131), runs of 4095 … 70000 blanks around registered names, media ranges (image/*, */*, text/*; q=0.8) and truncated names; EqualsAny over decorated pairs of registered names with decoys; every registered name and alias through Lookup(a).Is(a), including names and aliases registered at run time through Extend (half of them looked up, and not found, before their registration); detection results from seeds, every string / byte literal of the tree's source (alone and zero-padded), hostile charset labels (incl. labels that contain '; charset=…'), generated HTML and text: d.Is(d.String()), EqualsAny(d.String(), d.String()), Lookup(bare type).Is(d.String()), and every ancestor of the result answers to all names and aliases of its format. " +
 			"non-trivial = a pair where the helper must answer true (name or alias of the format) or a result whose String() carries a quoted / RFC 2231 parameter; distinct = distinct (format, name) pairs / names / result byte-class signatures.",
 		Assumptions: []string{
 			"well-formed parameters only (no malformed or duplicate parameter lists on the argument side)",
